@@ -26,57 +26,59 @@ func init() {
 }
 
 func c12Publish(c *Ctx) {
-	if fn := c.mustFn("request.markDone"); fn != nil {
-		var closeCall ssa.Instruction
-		var stores []*ssa.Store
+	// every close(done) is preceded (dominated) by the stores of data and err of that request, and
+	// every load of data/err outside such a publishing sequence is preceded by a receive from done -
+	// wherever these are written (helper methods or their call sites)
+	closes, loads := 0, 0
+	for _, fn := range c.subjects() {
+		var cls, recvs, lds []ssa.Instruction
+		stores := map[string][]ssa.Instruction{}
+		own := func(ins ssa.Instruction) bool { return ins.Parent() == fn }
 		instrs(fn, func(_ *ssa.BasicBlock, _ int, ins ssa.Instruction) {
-			switch x := ins.(type) {
-			case *ssa.Call:
-				if callee(x) == "builtin:close" && hasOrigin(x.Call.Args[0], func(o string) bool { return o == "field:request.done" }) {
-					closeCall = x
-				}
-			case *ssa.Store:
-				if fa, ok := x.Addr.(*ssa.FieldAddr); ok && (fieldOf(fa) == "request.data" || fieldOf(fa) == "request.err") {
-					stores = append(stores, x)
-				}
+			if !own(ins) {
+				return
+			}
+			switch {
+			case isCloseDone(ins):
+				cls = append(cls, ins)
+			case isRecvDone(ins):
+				recvs = append(recvs, ins)
+			case isResultLoad(ins):
+				lds = append(lds, ins)
+			}
+			if f, _ := resultStore(ins); f != "" {
+				stores[f] = append(stores[f], ins)
 			}
 		})
-		okP := closeCall != nil && len(stores) == 2
-		for _, s := range stores {
-			if closeCall == nil || !instrDominates(s, closeCall) {
-				okP = false
-			}
-		}
-		// and the stored values are the parameters
-		for _, s := range stores {
-			if _, isParam := s.Val.(*ssa.Parameter); !isParam {
-				okP = false
-			}
-		}
-		c.verdict(okP, "request.markDone:order", fn.Pos(), "data and err are stored (from the parameters) before close(done)", "close(done) is not preceded by the stores of both data and err: a waiter can wake up and read a result that is not there yet")
-	}
-	if fn := c.mustFn("request.wait"); fn != nil {
-		var recv ssa.Instruction
-		var loads []ssa.Instruction
-		instrs(fn, func(_ *ssa.BasicBlock, _ int, ins ssa.Instruction) {
-			if u, ok := ins.(*ssa.UnOp); ok {
-				if u.Op == token.ARROW && hasOrigin(u.X, func(o string) bool { return o == "field:request.done" }) {
-					recv = u
-				}
-				if u.Op == token.MUL {
-					if fa, ok := u.X.(*ssa.FieldAddr); ok && (fieldOf(fa) == "request.data" || fieldOf(fa) == "request.err") {
-						loads = append(loads, u)
+		for _, cl := range cls {
+			closes++
+			okP := true
+			for _, f := range []string{"request.data", "request.err"} {
+				dom := false
+				for _, st := range stores[f] {
+					if instrDominates(st, cl) {
+						dom = true
 					}
 				}
+				if !dom {
+					okP = false
+				}
 			}
-		})
-		okW := recv != nil && len(loads) == 2
-		for _, l := range loads {
-			if recv == nil || !instrDominates(recv, l) {
-				okW = false
-			}
+			c.verdict(okP, fnKey(fn)+":publish-order", cl.Pos(), "data and err are stored before close(done)", "close(done) is not preceded by the stores of both data and err: a waiter can wake up and read a result that is not there yet")
 		}
-		c.verdict(okW, "request.wait:order", fn.Pos(), "the receive from done precedes the loads of data and err", "wait reads the result before (or without) receiving from done")
+		for _, l := range lds {
+			loads++
+			dom := false
+			for _, r := range recvs {
+				if instrDominates(r, l) {
+					dom = true
+				}
+			}
+			c.verdict(dom, fnKey(fn)+":wait-order", l.Pos(), "the receive from done precedes the load of the result", "the result of a request is read before (or without) receiving from done")
+		}
+	}
+	if closes == 0 || loads == 0 {
+		c.bad("request:hand-over", token.NoPos, "found %d close(done) and %d result loads: the hand-over of results to waiters is not recognised", closes, loads)
 	}
 }
 
@@ -126,7 +128,15 @@ func c12Leader(c *Ctx) {
 				case "(*desync.request).wait":
 					st.Emit("wait", "", call)
 				}
+				if isCloseDone(call) { // markDone written out
+					st.Emit("markDone", "", call)
+				}
 				return nil
+			},
+			Instr: func(st *State, ins ssa.Instruction) {
+				if isRecvDone(ins) { // wait written out
+					st.Emit("wait", "", ins)
+				}
 			},
 			Deferred: func(st *State, d *ssa.Defer) {
 				switch callee(d) {
@@ -186,9 +196,9 @@ func c12Leader(c *Ctx) {
 			}
 		}
 		ups := calls(fn, named(sp.upstream))
-		mds := calls(fn, named("(*desync.request).markDone"))
+		mds := publishSites(fn)
 		dels := calls(fn, named("(*desync.queue).delete"))
-		if len(ups) == 1 && len(mds) == 1 && len(dels) == 1 {
+		if len(ups) == 1 && len(mds) == 1 && len(dels) == 1 && mds[0].data != nil && mds[0].err != nil {
 			up := ups[0].(*ssa.Call)
 			ua := up.Call.Args[len(up.Call.Args)-1]
 			if idParam != nil && !isParam(ua, idParam) {
@@ -197,7 +207,7 @@ func c12Leader(c *Ctx) {
 			if chunkParam != nil && !isParam(ua, chunkParam) {
 				bad = append(bad, "the upstream call does not store the given chunk")
 			}
-			ma := mds[0].Common().Args // recv, data, err
+			ma := []ssa.Value{nil, mds[0].data, mds[0].err} // recv, data, err
 			// err argument: the upstream error
 			ei := errResultIndex(up)
 			errOK := false
@@ -277,7 +287,15 @@ func c12Follower(c *Ctx) {
 				case n == "(*desync.request).markDone" || n == "(*desync.queue).delete":
 					st.Emit("leader-op", "", call)
 				}
+				if isCloseDone(call) {
+					st.Emit("leader-op", "", call)
+				}
 				return nil
+			},
+			Instr: func(st *State, ins ssa.Instruction) {
+				if isRecvDone(ins) {
+					st.Emit("wait", "", ins)
+				}
 			},
 			Return: func(st *State, ret *ssa.Return, results []Val) {
 				followers++
@@ -360,4 +378,70 @@ func c12WriteFirst(c *Ctx) {
 		c.bad("WriteDedupQueue.GetChunk:write-first", fn.Pos(), "no delegation found")
 	}
 	_ = strings.Contains
+}
+
+// Primitives of the request hand-over.  The rules accept them inside the helper methods
+// (request.markDone / request.wait) or written out at the call sites.
+func isCloseDone(ins ssa.Instruction) bool {
+	x, ok := ins.(*ssa.Call)
+	return ok && callee(x) == "builtin:close" && hasOrigin(x.Call.Args[0], func(o string) bool { return o == "field:request.done" })
+}
+
+func isRecvDone(ins ssa.Instruction) bool {
+	u, ok := ins.(*ssa.UnOp)
+	return ok && u.Op == token.ARROW && hasOrigin(u.X, func(o string) bool { return o == "field:request.done" })
+}
+
+func resultStore(ins ssa.Instruction) (field string, val ssa.Value) {
+	x, ok := ins.(*ssa.Store)
+	if !ok {
+		return "", nil
+	}
+	if fa, ok := x.Addr.(*ssa.FieldAddr); ok && (fieldOf(fa) == "request.data" || fieldOf(fa) == "request.err") {
+		return fieldOf(fa), x.Val
+	}
+	return "", nil
+}
+
+func isResultLoad(ins ssa.Instruction) bool {
+	u, ok := ins.(*ssa.UnOp)
+	if !ok || u.Op != token.MUL {
+		return false
+	}
+	fa, ok := u.X.(*ssa.FieldAddr)
+	return ok && (fieldOf(fa) == "request.data" || fieldOf(fa) == "request.err")
+}
+
+// publishSite is one "publish the result and wake the waiters": a call of markDone(data, err) or
+// the written-out stores of data and err followed by close(done).
+type publishSite struct {
+	at        ssa.Instruction
+	data, err ssa.Value
+}
+
+func publishSites(fn *ssa.Function) []publishSite {
+	var out []publishSite
+	for _, call := range calls(fn, named("(*desync.request).markDone")) {
+		a := call.Common().Args
+		if len(a) == 3 {
+			out = append(out, publishSite{call, a[1], a[2]})
+		}
+	}
+	instrs(fn, func(_ *ssa.BasicBlock, _ int, ins ssa.Instruction) {
+		if !isCloseDone(ins) || ins.Parent() != fn {
+			return
+		}
+		ps := publishSite{at: ins}
+		instrs(fn, func(_ *ssa.BasicBlock, _ int, i2 ssa.Instruction) {
+			if f, v := resultStore(i2); f != "" && i2.Parent() == fn && instrDominates(i2, ins) {
+				if f == "request.data" {
+					ps.data = v
+				} else {
+					ps.err = v
+				}
+			}
+		})
+		out = append(out, ps)
+	})
+	return out
 }
